@@ -38,6 +38,9 @@ def run(ctx):
             t.raw(pure.ev_rr_table(w % 5, w, lo, lo + 16384))
             traces.append(t.to_json())
     ctx.cov["first_draws_tabulated"] = sum(256 for _ in ws1) + 65536 * len(ws2)
+    t = Trace("generate_mask", uni)
+    t.raw(pure.ev_mask_table(70000 if thorough else 5000))
+    traces.append(t.to_json())
     # big ranges: the shipped q, streams all-zero, all-ones, q-1, q, q+1, just above the mask, forced redraws
     sp = load_repo()
     t = Trace("randrange-big", uni)
